@@ -6,7 +6,7 @@
 //! text, then the reference predicate.
 
 use crate::common::*;
-use crate::deleg::Ref;
+use crate::deleg::{Ref, RefStrict};
 use crate::jsonleg::{apply_byte_faults, ByteFault};
 use crate::prng::Rng;
 use crate::values::{self, half_ulp, next_up_bits, ref_valid_bits, SIGN};
@@ -119,6 +119,10 @@ pub fn execute(c: &TomlCase) -> LegReport {
         }
         Err(e) => Err(e.clone()),
     };
+    let unspecified = oracle.is_ok() && !matches!(guarded(|| parse::<RefStrict>(c.host, &text)), Ok(Ok(_)));
+    if unspecified {
+        rep.probes.hit("toml_integer_typed_numbers_unspecified");
+    }
     let got = match guarded(|| parse::<TwoFloat>(c.host, &text)) {
         Ok(g) => g,
         Err(msg) => {
@@ -134,6 +138,7 @@ pub fn execute(c: &TomlCase) -> LegReport {
         }
     }
     match (&expect, &got_words) {
+        _ if unspecified => {}
         (Ok(want), Ok(have)) => {
             if want != have {
                 rep.violations.push(viol("DE_UNFAITHFUL", format!("TOML {text:?}: delivered {} decoded as {}", words_list(want), words_list(have))));
